@@ -81,7 +81,12 @@ def run_case(c):
         if np.abs(fc).max() < 1e-8:
             return {"skip": "no interaction"}
         p2s = np.array(pr.p2s_map)
-        ph.force_constants = np.array(fc if c["full"] else fc[p2s], dtype="double", order="C")
+        from vlib.gen.layout import ARRAY_KINDS, relayout as _rl
+
+        _frng = np.random.default_rng(c["seed"] + 11)
+        fc_held, _fckind = _rl(fc if c["full"] else fc[p2s], _frng, kind=ARRAY_KINDS[int(_frng.integers(len(ARRAY_KINDS)))])  # same numbers, another memory layout
+        obs["fclayout_" + _fckind] = 1
+        ph.force_constants = fc_held
         if c["nac"]:
             ph.nac_params = nacgen.random_nac(ph, rng, method="wang")
         dm = ph.dynamical_matrix
